@@ -1,4 +1,5 @@
 import Gtree.Lemmas.SourceRefines
+import Gtree.Lemmas.HeapWasm
 import Gtree.Props.C14
 import Gtree.Lemmas.Output
 import Gtree.Model.Wasm
@@ -121,4 +122,24 @@ theorem C17_parser_is_the_source (st : PState) (row : Bytes) :
 
 /-- the parser every generator starts with (`md.NewParser()` returns `&Parser{}`) is the model's initial state -/
 example : toSrc {} = { isSharpRoot := false, spaces := 0, sep := [] } := rfl
+end Gtree
+
+namespace Gtree
+/-- Tie to the source, pointer code included (heap mode of /verif/translate, regenerated on every run): THE TINYWASM TWINS
+    of the grower and the text printer — wasm_tree_grower.go (`defaultGrower.assemble`, `assembleBranch` with its walk up
+    the parent links, `assembleBranchDirectly/Indirectly/Finally`) and wasm_tree_spreader.go
+    (`defaultSpreader.spreadBranch`) — translated over an explicit heap next to the default variant's functions.
+    Definition by definition the twin's grower is the default grower followed, node by node, by baking the row into the
+    branch (`Lemmas/HeapWasm.lean`: `wasm_directly`, `wasm_indirectly` by `rfl`; `wasm_finally`, `wasm_assembleBranch` for
+    every heap).  For every heap that holds a tree at a root (all pointers different), every four branch strings and every
+    fuel above `2·size + 1`: the twin's grower returns the DEFAULT variant's validation verdict (the same accept/reject
+    decision), and when it accepts, the twin's printer returns the model's `wasmSpreadBranch` — which `C17_render_same`
+    shows to be the default variant's text, byte for byte. -/
+theorem C17_twins_are_the_source (dg : SrcH.defaultGrower) (ds : SrcH.defaultSpreader) (t : T) (h : SrcH.Heap)
+    (r : Go.Ptr) (fuel : Nat) (hr : SrcH.Repr h t r 0 1) (hnd : (SrcH.ptrs h t r).Nodup) (hf : 2 * t.size + 1 ≤ fuel) :
+    ∃ h', SrcH.defaultGrower.assemble fuel h dg r =
+        some (h', SrcH.expErr (SrcH.toSimple dg) (growRoot (SrcH.fmtOf (SrcH.toSimple dg)) t)) ∧
+      (SrcH.expErr (SrcH.toSimple dg) (growRoot (SrcH.fmtOf (SrcH.toSimple dg)) t) = none →
+        SrcH.defaultSpreader.spreadBranch fuel h' ds r = some (wasmSpreadBranch (SrcH.fmtOf (SrcH.toSimple dg)) t)) :=
+  SrcH.wasm_grow_then_spread dg ds t h r fuel hr hnd hf
 end Gtree
